@@ -168,7 +168,7 @@ namespace {
           sink->push_back(out); // the statements of the outermost block are kept apart so that replays can be shrunk
           out.clear();
         }
-        const int k = int(rng.below(d <= 0 ? 12 : 35));
+        const int k = int(rng.below(d <= 0 ? 12 : 37));
         switch (k) {
         case 0:
         case 1:
@@ -356,6 +356,29 @@ namespace {
           case 0: out += "var " + kv + " = []; call_with_value(fun[" + kv + "](p) { " + kv + ".push_back_ref(p) }, " + num() + "); by_cref(" + kv + "[0]); t(" + kv + "[0].value()); "; break;
           case 1: out += "var " + kv + " = Dynamic_Object(); call_with_value(fun[" + kv + "](p) { " + kv + ".f = fun[p]() { return by_cref(p) } }, " + num() + "); " + kv + ".f(); "; break;
           default: out += "call_with_value(fun(p) { keep_value(p) }, " + num() + "); "; break;
+          }
+          break;
+        }
+        case 35: {
+          // reference-assignment whose two sides are the same object (directly, through two parameters of a helper, or
+          // a container element onto itself): nothing may be destroyed, the variable keeps referring to a live object
+          const std::string x = nm("sa");
+          switch (rng.below(4)) {
+          case 0: out += "var " + x + " = " + source(objs) + "; " + x + " := " + x + "; by_cref(" + x + "); t(" + x + ".value()); "; break;
+          case 1: out += "var " + x + " = Tracked(" + num() + "); rebind(" + x + ", " + x + "); by_cref(" + x + "); " + x + ".set_value(" + num() + "); "; objs.push_back(x); break;
+          case 2: out += "var " + x + " = [Tracked(" + num() + "), Tracked(" + num() + ")]; " + x + "[0] := " + x + "[0]; rebind(" + x + "[1], " + x + "[1]); by_cref(" + x + "[0]); by_ref(" + x + "[1]); "; break;
+          default: out += "var " + x + " = make_shared_t(" + num() + "); var " + x + "b = fun[" + x + "]() { " + x + " := " + x + "; return " + x + " }(); keep(" + x + "); by_cref(" + x + "b); "; break;
+          }
+          break;
+        }
+        case 36: {
+          // a C++ function takes `const std::shared_ptr<T> &` and calls back into script half-way; the callback re-seats
+          // the very variable that was passed: the callee's parameter must still own the object it was given
+          const std::string x = nm("sp");
+          switch (rng.below(3)) {
+          case 0: out += "var " + x + " = make_shared_t(" + num() + "); t(with_cb_sp(" + x + ", fun[" + x + "]() { " + x + " := make_shared_t(" + num() + ") })); by_cref(" + x + "); "; break;
+          case 1: out += "var " + x + " = make_shared_t(" + num() + "); t(with_cb_sp(" + x + ", fun[" + x + "]() { reseat(" + x + ", " + num() + ") })); t(" + x + ".value()); "; break;
+          default: out += "var " + x + " = [make_shared_t(" + num() + ")]; t(with_cb_sp(" + x + "[0], fun[" + x + "]() { " + x + ".clear() })); t(" + x + ".size()); "; break;
           }
           break;
         }
@@ -554,6 +577,13 @@ namespace {
                 return before + t.value(); // the argument must still be alive after the callback returned
               }),
               "with_cb");
+        e.add(fun([](const std::shared_ptr<Tracked> &p, const std::function<void()> &cb) {
+                const int before = p->value();
+                cb();
+                return before + p->value(); // the parameter must still own the object it was given
+              }),
+              "with_cb_sp");
+        e.eval("def rebind(a, b) { a := b }");
         e.add(fun([script_throw]() { return script_throw; }), "flag");
         e.add(fun([](const Tracked &t) -> const Tracked & {
                 (void)t.value();
